@@ -12,7 +12,7 @@ from ..paths import ALL_LABELS, EXC_LABELS, NORMAL_LABELS, Search
 from ..program import AnalysisError, ClassInfo, FuncEnv, FuncUnit, dotted, unparse
 from ..report import Collector
 from ..roles import is_ext
-from .common import path_text
+from .common import in_loop_body, path_text
 
 
 def _run_units(ctx: Ctx) -> List[FuncUnit]:
@@ -449,7 +449,7 @@ def rule_errors_as_values(ctx: Ctx, out: Collector) -> None:
             # falling out of the handler to the statement after the try = swallowed
             join = [m for m in ends if g.evs[m].kind == 'nop' and g.evs[m].info.get('what') == 'after-try'
                     and g.evs[m].node is _try_of(h)]
-            retries = [m for m in ends if g.evs[m].kind == 'loophead']
+            retries = [m for m in ends if g.evs[m].kind in ('loophead', 'loop') and in_loop_body(h, g.evs[m])]
             if join and not retries:
                 out.bad('ER-6', cons, h.where(), 'an exception handler of the run manager can fall through without re-raising or '
                                                  'returning the error: the failure is swallowed and the node looks successful')
